@@ -231,6 +231,12 @@ def r6_panics(text: str) -> Tuple[str, int]:
         T = code_toks(lex(text))
         edits = []
         for i, t in enumerate(T):
+            # `.unwrap_or_else(|| panic!(..))` panics exactly when `.unwrap()` does
+            if t.kind == "ident" and t.text == "unwrap_or_else" and i > 0 and T[i - 1].text == "." and T[i + 1].text == "(" \
+                    and T[i + 2].text == "||" and T[i + 3].text == "panic" and T[i + 4].text == "!":
+                cb = match_close(T, i + 1)
+                edits.append((t.start, T[cb].end, "unwrap()"))
+                continue
             if t.kind == "ident" and t.text in ("panic", "unreachable", "todo", "unimplemented") \
                     and i + 2 < len(T) and T[i + 1].text == "!" and T[i + 2].text in "([{":
                 cb = match_close(T, i + 2)
@@ -266,14 +272,49 @@ def r7_smallvec(text: str) -> Tuple[str, int]:
 
 # --------------------------------------------------------------------------------------- R9
 def r9_into(text: str, target: str) -> Tuple[str, int]:
-    """`&X.into()` -> `&T::from(X)` for single-identifier X (the blanket `impl<T, U: From<T>> Into<U> for T`)."""
-    n = 0
-    def sub(m):
-        nonlocal n
-        n += 1
-        return f"{target}::from({m.group(1)})"
-    text = re.sub(r"\b([A-Za-z_][A-Za-z0-9_]*)\.into\(\)", sub, text)
-    return text, n
+    """`RECV.into()` -> `T::from(RECV)` where RECV is a postfix chain (ident, field, call, paren group);
+    this is the blanket `impl<T, U: From<T>> Into<U> for T` of std spelled out for the target type named in the unit."""
+    def step(text):
+        T = code_toks(lex(text))
+        for i in range(len(T) - 3):
+            if T[i].text == "." and T[i + 1].text == "into" and T[i + 2].text == "(" and T[i + 3].text == ")":
+                j = i - 1
+                while j >= 0:
+                    t = T[j]
+                    if t.kind == "punct" and t.text in ")]":
+                        # find matching open
+                        depth = 0
+                        k = j
+                        while k >= 0:
+                            if T[k].kind == "punct" and T[k].text in ")]":
+                                depth += 1
+                            elif T[k].kind == "punct" and T[k].text in "([":
+                                depth -= 1
+                                if depth == 0:
+                                    break
+                            k -= 1
+                        j = k - 1
+                        if j >= 0 and T[j].kind == "ident" and T[j].text not in ("if", "match", "while", "return", "in"):
+                            j -= 1
+                        elif T[k].text == "(":
+                            # a parenthesised group `( .. )` stands alone; an operator such as `!` may precede it inside
+                            j = k - 1
+                            break
+                        else:
+                            break
+                    elif t.kind in ("ident", "num"):
+                        j -= 1
+                    else:
+                        break
+                    if j >= 0 and T[j].text in (".", "::"):
+                        j -= 1
+                        continue
+                    break
+                start = T[j + 1].start
+                recv = text[start:T[i].start]
+                return _apply(text, [(start, T[i + 3].end, f"{target}::from({recv})")]), 1
+        return text, 0
+    return _fix(text, step)
 
 
 # --------------------------------------------------------------------------------------- misc
